@@ -358,3 +358,28 @@ package client
 //@   requires c != nil && typeis(aval(c.config), Config) && typeis(aval(c.dialTimeout), time.Duration)
 //@   assert register_signed at call Serialize : [C18] register.Key == PublicKeyOf(config.ClientKey) && register.Hash == c.hash
 //@        && register.Signature == SignOf(config.ClientKey, regDigest(*register))
+
+// ---------------------------------------------------------------------------------------
+// C16: a server response goes to the pending request it answers.
+//
+// answers(r, m): message m is the response to pending request r — by kind and key.
+
+//@ spec acceptKind(t) = t == MessageTypeSendTx || t == MessageTypeSendExpandedTx || t == MessageTypeSaveTxs || t == MessageTypeReprocessTx || t == MessageTypeMarkHeaderInvalid || t == MessageTypeMarkHeaderNotInvalid
+//@ spec rejectKind(t) = acceptKind(t) || t == MessageTypeGetTx || t == MessageTypeGetHeader || t == MessageTypeGetFeeQuotes
+//@ spec answers(r, m) = (typeis(m.Payload, *Headers) ==> r.typ == MessageTypeGetHeaders && r.height == int(as(m.Payload, *Headers).RequestHeight))
+//@     && (typeis(m.Payload, *Header) ==> r.typ == MessageTypeGetHeader && r.hash == BlockHashOf(as(m.Payload, *Header).Header))
+//@     && (typeis(m.Payload, *FeeQuotes) ==> r.typ == MessageTypeGetFeeQuotes)
+//@     && (typeis(m.Payload, *BaseTx) ==> r.typ == MessageTypeGetTx && r.hash == TxHashOf(as(m.Payload, *BaseTx).Tx))
+//@     && (typeis(m.Payload, *Accept) ==> as(m.Payload, *Accept).Hash != nil && r.typ == as(m.Payload, *Accept).MessageType && acceptKind(r.typ) && r.hash == *as(m.Payload, *Accept).Hash)
+//@     && (typeis(m.Payload, *Reject) ==> as(m.Payload, *Reject).Hash != nil && r.typ == as(m.Payload, *Reject).MessageType && rejectKind(r.typ)
+//@            && (r.typ == MessageTypeGetFeeQuotes || r.hash == *as(m.Payload, *Reject).Hash))
+//@     && (typeis(m.Payload, *Headers) || typeis(m.Payload, *Header) || typeis(m.Payload, *FeeQuotes) || typeis(m.Payload, *BaseTx) || typeis(m.Payload, *Accept) || typeis(m.Payload, *Reject))
+
+//@ func (*RemoteClient).handleRequestResponse
+//@   serves C16
+//@   opt nomonitor = 1
+//@   opt partial = 1
+//@   requires c != nil && message != nil && forall(k, 0, len(c.requests), c.requests[k] != nil)
+//@   requires typeis(message.Payload, *BaseTx) ==> as(message.Payload, *BaseTx).Tx != nil
+//@   loop * invariant true
+//@   assert routed at send : [C16] answers(*request, *message)
